@@ -43,7 +43,66 @@ class Ctx:
             return self.pdb.inherent(self_ty, name), None
         key, _ov = self.pdb.dispatch(trait, self_ty, name)
         cont = self.pdb.fn(key)["container"]
-        return key, (self_ty if cont.get("kind") == "trait" else None)
+        sty = self_ty if cont.get("kind") == "trait" else None
+        self.check_shadow(self_ty, name, trait, key, sty)
+        return key, sty
+
+    def check_shadow(self, self_ty, name, trait, tkey, sty):
+        """`x.name()` and `Type::name(&x)` resolve to an inherent method before any trait method: when the type has an
+        inherent method named like the trait method a property observes, what users observe is the inherent one.  It
+        must then be the same function of its arguments as the trait method (identical summaries), otherwise the
+        rule would be certifying code the observable entry point does not run."""
+        memo = self.cache.setdefault("shadow", {})
+        if (self_ty, name) in memo:
+            return
+        memo[(self_ty, name)] = True
+        inh = None
+        for im in self.pdb.impl_ix.get((None, self_ty), []):
+            if name in im["items"]:
+                inh = im["items"][name]
+        if inh is None:
+            return
+        rule = "%s.shadowing" % self.rep.prop
+        inst = "%s::%s" % (short(self_ty), name)
+        where = self.pdb.where(inh)
+        try:
+            fi, ft = self.pdb.fn(inh)["mir"], self.pdb.fn(tkey)["mir"]
+            if fi["arg_count"] != ft["arg_count"]:
+                self.rep.ob(rule, inst, False, "an inherent method %s::%s (different signature) hides the %s method of that name from method-call syntax" % (short(self_ty), name, trait), where)
+                return
+            params = []
+            for i in range(1, fi["arg_count"] + 1):
+                t = self.pdb.ty(fi["locals"][i])
+                if t["k"] == "ref":
+                    params.append(("r", self.symbolic_of(self.pdb.ty(t["to"]), "h%d_" % i)))
+                else:
+                    params.append(("v", self.symbolic_of(t, "h%d_" % i)))
+            s1 = self.summ(inh, params)
+            s2 = self.summ(tkey, params, sty)
+            same = s1.ret is s2.ret and len(s1.outs) == len(s2.outs) and all(a is b for a, b in zip(s1.outs, s2.outs))
+            self.rep.ob(rule, inst, same, "the inherent method %s::%s hides %s::%s from method-call and path syntax and does not compute the same function (its summary differs from the trait method's)" % (short(self_ty), name, trait, name), where)
+        except Uncertified as u:
+            self.rep.uncertified(rule, "inherent method %s::%s hides the trait method %s::%s; could not compare them (%s)" % (short(self_ty), name, trait, name, u.what), where)
+
+    def symbolic_of(self, t, prefix):
+        """a symbolic value of a MIR type: integers are atoms, arrays of integers arrays of atoms, local structs
+        field-wise"""
+        k = t["k"]
+        if k in ("int", "uint", "bool", "char", "float"):
+            return atom(prefix + "v", t["s"])
+        if k == "array" or t["s"].startswith("["):
+            import re as _re
+            m = _re.match(r"\[(\w+); (\d+)\]$", t["s"])
+            if m and m.group(1) in ("u8", "u16", "u32", "u64", "usize", "i8", "i16", "i32", "i64"):
+                return agg(("array",), [atom("%s%d" % (prefix, i), m.group(1)) for i in range(int(m.group(2)))])
+        if k == "adt" and t["s"] in self.pdb.adts and self.pdb.adts[t["s"]]["kind"] == "struct":
+            fields = []
+            for j, fd in enumerate(self.pdb.adts[t["s"]]["variants"][0]["fields"]):
+                fields.append(self.symbolic_of({"k": "?", "s": fd["ty_s"]}, "%sf%d_" % (prefix, j)))
+            return agg(("adt", t["s"], 0), fields)
+        if t["s"] in ("u8", "u16", "u32", "u64", "usize", "i8", "i16", "i32", "i64", "bool", "char"):
+            return atom(prefix + "v", t["s"])
+        raise Uncertified("no symbolic value for type %s" % t["s"])
 
     def overridden(self, trait, self_ty, name):
         _k, ov = self.pdb.dispatch(trait, self_ty, name)
